@@ -419,6 +419,10 @@ class ExprMixin:
     def str_equal(self, l, r):
         if l.atoms == r.atoms: return z3.BoolVal(True)
         la, ra = l.atoms, r.atoms
+        if any(len(x) == 1 and isinstance(x[0], tuple) and x[0][0] == 'shaped' for x in (la, ra)):
+            # a listing line (template + integers): equal iff template and integers are equal (T5)
+            sh = self.shapes['strline']
+            return sh.encode(self, l) == sh.encode(self, r)
         if any(isinstance(a, tuple) and a[0] == 'absent' for a in la + ra): return z3.BoolVal(False)    # label not present in the text
         if len(la) == len(ra) and len(la) >= 1:          # atom-wise (sufficient; literals around numbers are not digits here: T5)
             ts = [self.atom_equal(a, b) for a, b in zip(la, ra)]
